@@ -140,12 +140,12 @@ def workdir(name):
     return d
 
 
-def _run_proc(binary, mode, infile, outfile, opts, timeout, mem_gb, env_extra, asan_like):
+def _run_proc(binary, mode, infile, outfile, opts, timeout, mem_gb, env_extra, asan_like, prefix=None):
     env = dict(BASE_ENV)
     env["RUST_BACKTRACE"] = "0"
     if env_extra:
         env.update(env_extra)
-    cmd = [binary, mode, infile, outfile] + ["%s=%s" % kv for kv in sorted(opts.items())]
+    cmd = (prefix or []) + [binary, mode, infile, outfile] + ["%s=%s" % kv for kv in sorted(opts.items())]
     try:
         p = subprocess.run(
             cmd,
@@ -198,6 +198,7 @@ def run_cases(
     asan_like=False,
     confirm_crashes=True,
     per_case_timeout=60,
+    prefix=None,
 ):
     """Run `cases` (dicts with unique 'id') through `binary mode`, sharded over processes.
     A process that dies is attributed to the first started-but-unfinished case; that case is
@@ -222,7 +223,7 @@ def run_cases(
             with open(infile, "w") as f:
                 for c in part:
                     f.write(json.dumps(c) + "\n")
-            rc, err = _run_proc(binary, mode, infile, outfile, opts, timeout, mem_gb, env_extra, asan_like)
+            rc, err = _run_proc(binary, mode, infile, outfile, opts, timeout, mem_gb, env_extra, asan_like, prefix)
             res, started, done = _read_out(outfile)
             evs.update(res)
             if done and rc == 0:
@@ -250,7 +251,7 @@ def run_cases(
                 cout = os.path.join(wd, "cout_%d_%d.jsonl" % (si, rnd))
                 with open(cin, "w") as f:
                     f.write(json.dumps(culprit) + "\n")
-                rc2, err2 = _run_proc(binary, mode, cin, cout, opts, per_case_timeout, mem_gb, env_extra, asan_like)
+                rc2, err2 = _run_proc(binary, mode, cin, cout, opts, per_case_timeout, mem_gb, env_extra, asan_like, prefix)
                 res2, _, done2 = _read_out(cout)
                 if done2 and rc2 == 0:
                     # not reproducible alone
